@@ -311,6 +311,33 @@ func cmdCheck(repo, root string, args []string) int {
 	if usesGSM7 {
 		obls = append(obls, w.gsm7TableObligations(root)...)
 	}
+	// trusted wrapper contracts in the closure that have a bounded stand-in: run it (quick: reduced bound)
+	standNames := map[string]bool{}
+	standFor := []string{}
+	for key, r := range results {
+		if fs := w.Specs[key]; fs != nil && fs.Trusted && r != nil {
+			for sub, val := range standInOf {
+				if strings.Contains(shortKey(key), sub) {
+					standNames[val] = true
+					standFor = append(standFor, shortKey(key))
+				}
+			}
+		}
+	}
+	sort.Strings(standFor)
+	var standRows []map[string]interface{}
+	var standFails []string
+	if len(standNames) > 0 {
+		var ns []string
+		for n := range standNames {
+			ns = append(ns, n)
+		}
+		rows, fails, err := runStandIns(repo, root, ns, tier != "thorough")
+		if err != nil {
+			return fault(err.Error())
+		}
+		standRows, standFails = rows, fails
+	}
 	genS := time.Since(t0).Seconds() - loadS
 	if len(obls) == 0 && len(genErrs) == 0 {
 		return fault("no obligations generated for " + prop + " (vacuity guard)")
@@ -483,6 +510,14 @@ func cmdCheck(repo, root string, args []string) int {
 			fmt.Printf("VIOLATION property=%s replay=%s finding=%s (recorded as fixed, manifests again: %s)\n", prop, rp, k.ID, r.Line)
 		}
 	}
+	for i, fl := range standFails {
+		violations++
+		rp := filepath.Join(evidenceDir(root), "replay", fmt.Sprintf("%s-standin-%d.json", prop, i))
+		writeJSON(rp, map[string]interface{}{"property": prop, "kind": "bounded stand-in for trusted contracts", "trusted_functions": standFor,
+			"failing_input": fl, "note": "found by running the real functions on the validator's inputs (validators/validators_test.go); the input is in failing_input",
+			"rerun": "/verif/check " + prop + " " + tier})
+		fmt.Printf("VIOLATION property=%s replay=%s bounded-stand-in failing input: %s\n", prop, rp, fl)
+	}
 	knownPrinted := map[string]bool{}
 	var knownLines []string
 	otherSkipped := []string{}
@@ -592,6 +627,9 @@ func cmdCheck(repo, root string, args []string) int {
 		"checker_cmd":                            fmt.Sprintf("/verif/check %s %s  (govc: go/ssa weakest-precondition style VC generation over /repo's working tree; z3 4.8.12, z3 5.1.0, cvc5 1.0 raced per obligation, timeout %v)", prop, tier, timeout),
 		"trusted_base":                           asm,
 		"functions_under_contract":               funcs,
+		"bounded_stand_ins":                      standRows,
+		"bounded_stand_ins_for":                  standFor,
+		"bounded_stand_ins_note":                 "trusted (assumed) contracts of thin wrappers over external transformers are not proved; a bounded validator exercises the real functions instead (labelled bounded, never counted in obligations/discharged)",
 		"dependency_closure":                     depFuncs,
 		"dependency_closure_note":                "callee contracts the property's proofs assumed at call sites; each is verified in full (all clauses) in this run, transitively",
 		"assumed_clauses_with_findings_of_other_properties": otherSkipped,
